@@ -5,6 +5,7 @@ import FendModel.Model.Root
 import FendModel.Proofs.Format
 import FendModel.Proofs.FormatLayout
 import FendModel.Proofs.BigUintRoot
+import FendModel.Proofs.BigRatRoot
 import Mathlib.Tactic.Ring
 import Mathlib.Tactic.Linarith
 import Mathlib.Tactic.FieldSimp
@@ -293,5 +294,122 @@ theorem biguint_root_exact_iff (self n g : BigUint) (e : Bool) (hs : self.WF) (h
     subst h1; subst h2
     rw [← hv] at hroot
     exact ⟨rootNat_spec _ _ hn1 _ _ hroot, rootNat_exact_iff _ _ hn1 _ _ hroot⟩
+
+section
+open BigRat BigUint Cx
+
+/-- **`BigRat::root_n` refines `ratRoot`**: for a non-negative radicand and an index denoting an integer `1 ≤ n < 2^64` -/
+theorem bigrat_root_refines (f : Nat) (x n : BigRat) (wx : OKQ x) (hxn : x.neg = false) (wn : WFQ n) (hi : IntExp n)
+    (hnn : n.neg = false) (h1 : 1 ≤ expN n) (hB : expN n < B) :
+    match Root.ratRoot (val x.num) (val x.den) (expN n) with
+    | some (v, e) => ∃ q, BigRat.rootN (pow (f + 1)) x n = .ok (q, e) ∧ valQ q = v
+    | none => ∃ er, BigRat.rootN (pow (f + 1)) x n = .error er := by
+  obtain ⟨n', hsn, wn', hd1, hnum, hneg'⟩ := simplify_int n wn hi
+  have hden1 : denIsOne n' = true := (denIsOne_iff n' wn'.2).mpr hd1
+  have hn'neg : n'.neg = false := by rw [hneg', hnn]
+  have hguard : (!denIsOne n' || n'.neg) = false := by simp [hden1, hn'neg]
+  have hv1 : 1 ≤ val n'.num := by rw [hnum]; exact h1
+  have hvB : val n'.num < B := by rw [hnum]; exact hB
+  unfold BigRat.rootN Root.ratRoot
+  simp only [hxn, Bool.and_false, Bool.false_eq_true, if_false, hsn, bind, Except.bind, hguard]
+  by_cases hz : val x.num = 0
+  · have : numIsZero x = true := (numIsZero_iff x wx.1.1).mpr hz
+    simp only [this, hz, if_true]
+    exact ⟨x, rfl, (valQ_eq_zero_iff x wx.2).mpr hz⟩
+  · have hzf : numIsZero x = false := by
+      cases h : numIsZero x with
+      | false => rfl
+      | true => exact absurd ((numIsZero_iff x wx.1.1).mp h) hz
+    simp only [hzf, hz, Bool.false_eq_true, if_false]
+    have rn := BigUint.rootN_refines x.num n'.num wx.1.1 wn'.1 hv1 hvB
+    have rd := BigUint.rootN_refines x.den n'.num wx.1.2 wn'.1 hv1 hvB
+    rw [hnum] at rn rd
+    cases ha : Root.rootNat (val x.num) (expN n) with
+    | none => rw [ha] at rn; simp only at rn; simp only [rn]; exact ⟨_, rfl⟩
+    | some pa =>
+      obtain ⟨a, ea⟩ := pa
+      rw [ha] at rn
+      obtain ⟨ga, hga, hgav, hgaw⟩ := rn
+      simp only [hga]
+      cases hb : Root.rootNat (val x.den) (expN n) with
+      | none => rw [hb] at rd; simp only at rd; simp only [rd]; exact ⟨_, rfl⟩
+      | some pb =>
+        obtain ⟨b, eb⟩ := pb
+        rw [hb] at rd
+        obtain ⟨gb, hgb, hgbv, hgbw⟩ := rd
+        simp only [hgb]
+        by_cases hboth : (ea && eb) = true
+        · simp only [hboth, if_true]
+          refine ⟨⟨false, ga, gb⟩, rfl, ?_⟩
+          simp [valQ, hgav, hgbv]
+        · have hbf : (ea && eb) = false := by simpa using hboth
+          simp only [hbf, Bool.false_eq_true, if_false]
+          have hspecb : eb = true → b ≠ 0 := by
+            intro he; subst he
+            have hspec := (rootNat_spec (val x.den) (expN n) h1 b true hb).1 rfl
+            intro hb0
+            rw [hb0, Nat.zero_pow (by omega)] at hspec
+            exact wx.2 hspec.symm
+          -- the final division never divides by zero
+          have fin : ∀ nr dr : BigRat, OKQ nr → OKQ dr → valQ dr ≠ 0 →
+              ∃ q, BigRat.div nr dr = .ok q ∧ valQ q = valQ nr / valQ dr := by
+            intro nr dr _ hdro hdr0
+            have hzd : numIsZero dr = false := by
+              cases h : numIsZero dr with
+              | false => rfl
+              | true => exact absurd ((valQ_eq_zero_iff dr hdro.2).mpr ((numIsZero_iff dr hdro.1.1).mp h)) hdr0
+            obtain ⟨q, hq, hqv⟩ := (div_valQ nr dr hdro.1.1).2 hzd
+            exact ⟨q, hq, hqv hdro.2⟩
+          have okA : OKQ (ofUint ga) := ofUint_ok ga hgaw
+          have okB : OKQ (ofUint gb) := ofUint_ok gb hgbw
+          have vA : valQ (ofUint ga) = ((a : Nat) : Rat) := by rw [valQ_ofUint, hgav]
+          have vB : valQ (ofUint gb) = ((b : Nat) : Rat) := by rw [valQ_ofUint, hgbv]
+          cases ea with
+          | true =>
+            cases eb with
+            | true => simp at hbf
+            | false =>
+              obtain ⟨dq, hdq, hdqo, hdqv⟩ := iterRootN_refines f gb x.den n'.num hgbw wx.1.2 wn'.1 hv1 hvB
+              rw [hgbv, hnum] at hdqv
+              simp only [if_true, hdq, Bool.false_eq_true, if_false]
+              obtain ⟨q, hq, hqv⟩ := fin (ofUint ga) dq okA hdqo (by rw [hdqv]; exact ne_of_gt (iterRoot_pos b _ _))
+              exact ⟨q, by simp only [hq], by rw [hqv, vA, hdqv]⟩
+          | false =>
+            obtain ⟨nq, hnq, hnqo, hnqv⟩ := iterRootN_refines f ga x.num n'.num hgaw wx.1.1 wn'.1 hv1 hvB
+            rw [hgav, hnum] at hnqv
+            cases eb with
+            | true =>
+              simp only [if_true, hnq, Bool.false_eq_true, if_false]
+              obtain ⟨q, hq, hqv⟩ := fin nq (ofUint gb) hnqo okB (by rw [vB]; exact_mod_cast hspecb rfl)
+              exact ⟨q, by simp only [hq], by rw [hqv, vB, hnqv]⟩
+            | false =>
+              obtain ⟨dq, hdq, hdqo, hdqv⟩ := iterRootN_refines f gb x.den n'.num hgbw wx.1.2 wn'.1 hv1 hvB
+              rw [hgbv, hnum] at hdqv
+              simp only [hnq, hdq, Bool.false_eq_true, if_false]
+              obtain ⟨q, hq, hqv⟩ := fin nq dq hnqo hdqo (by rw [hdqv]; exact ne_of_gt (iterRoot_pos b _ _))
+              exact ⟨q, by simp only [hq], by rw [hqv, hnqv, hdqv]⟩
+
+/-- hence, at the bignum level: for a non-negative fraction in lowest terms, `BigRat::root_n` flags its result exact exactly
+when the radicand has a rational n-th root, and an exact result IS that root -/
+theorem bigrat_root_exact_iff (f : Nat) (x n : BigRat) (wx : OKQ x) (hxn : x.neg = false) (wn : WFQ n) (hi : IntExp n)
+    (hnn : n.neg = false) (h1 : 1 ≤ expN n) (hB : expN n < B) (hnum : 0 < val x.num) (hco : Nat.Coprime (val x.num) (val x.den))
+    (q : BigRat) (e : Bool) (h : BigRat.rootN (pow (f + 1)) x n = .ok (q, e)) :
+    (e = true → valQ q ^ expN n = ((val x.num : Nat) : Rat) / (val x.den : Nat)) ∧
+    (e = true ↔ ∃ s : Rat, 0 ≤ s ∧ s ^ expN n = ((val x.num : Nat) : Rat) / (val x.den : Nat)) := by
+  have hr := bigrat_root_refines f x n wx hxn wn hi hnn h1 hB
+  cases hroot : Root.ratRoot (val x.num) (val x.den) (expN n) with
+  | none => rw [hroot] at hr; obtain ⟨er, her⟩ := hr; rw [her] at h; cases h
+  | some ve =>
+    obtain ⟨v, e'⟩ := ve
+    rw [hroot] at hr
+    obtain ⟨q', hq', hv⟩ := hr
+    rw [hq'] at h
+    injection h with h
+    injection h with hq he
+    subst hq; subst he
+    rw [hv]
+    exact ratRoot_exact_iff _ _ _ h1 hnum (Nat.pos_of_ne_zero wx.2) hco v e' hroot
+
+end
 
 end Fend.C03
